@@ -164,7 +164,24 @@ func TestC09(t *testing.T) {
 			return val.Interface().(message.Message), mi
 		}
 	}
+	// dialect messages whose id does not fit a v1 frame
+	var highID []*msgInfo
+	for _, mi := range glist {
+		if mi.Msg.GetID() > 255 {
+			highID = append(highID, mi)
+		}
+	}
 	refusedMsg := func(v2 bool) message.Message {
+		if !v2 && len(highID) > 0 && r.Chance(2, 3) {
+			// a message of the dialect whose id is above 255, decoded or already encoded: version 1 must refuse it
+			mi := highID[r.Intn(len(highID))]
+			val := reflect.New(mi.Type)
+			vh.FillMessage(r, mi.Layout, val, vh.ModeMixed)
+			if r.Chance(1, 2) {
+				return &message.MessageRaw{ID: mi.Msg.GetID(), Payload: mi.Layout.Encode(val, false)}
+			}
+			return val.Interface().(message.Message)
+		}
 		if !v2 && r.Chance(1, 2) {
 			return &message.MessageRaw{ID: 300, Payload: []byte{1, 2, 3}} // v1 cannot carry it
 		}
@@ -396,6 +413,9 @@ func TestC09(t *testing.T) {
 		if err == nil {
 			node.Close()
 		}
+	}
+	if len(highID) == 0 {
+		rep.HarnessError("no dialect message with an id above 255 in the pick")
 	}
 	rep.Floor("originated_frames_node", 2000)
 	rep.Floor("node_heartbeats_seen", 50)
